@@ -1,4 +1,6 @@
 import Dnp3.Props.DbComponent
+import Dnp3.Proofs.OutstationC03A
+import Dnp3.Proofs.OutstationC03Db
 /-!
 # C03 — No event is lost, invented, or released before a confirmed response carried it
 
@@ -19,9 +21,12 @@ database state / operation / operation sequence, restated verbatim from `Dnp3.Pr
   `Unselected → Selected` (`select_only_selects`).
 
 Which session paths call `clearWritten` / `reset` is the session model's part
-(`Dnp3.Model.Outstation`), tied by the `outstationdb` correspondence engine and the event-ledger
-monitors; the session-level defects D4 (DISABLE_UNSOLICITED during an unsolicited confirm wait) and
-D19 (disconnect during a series) are findings on the unchanged tree.
+(`Dnp3.Model.Outstation`, tied by the `outstationdb` correspondence engine and the event-ledger
+monitors): section "Session level" at the end of this file (proofs in
+`Dnp3.Proofs.OutstationC03`/`…C03A`/`…C03B`, database opaque; `…C03Db` instantiates the real database).
+The session-level defects D4 (an unsolicited data series that ended without its confirm did not
+reset the database) and D19 (neither did a disconnect) are repaired; the theorems there are the
+full statements.
 -/
 namespace Dnp3.Props.C03
 open Dnp3 Dnp3.DbM Dnp3.DbProofs Dnp3.Props.Db
@@ -151,5 +156,115 @@ theorem overflow_reported_discards_oldest (db : Db) (idx cls : Nat) (t : PtType)
       ∀ r ∈ db.events, r.ty = t → r ≠ d → d.id < r.id :=
   @Dnp3.Props.Db.overflow_reported_discards_oldest db idx cls t m dv c dId ho h
 
+
+
+/-! ## Session level: where the session applies `clearWritten` and `reset` (D4, D19 repaired)
+
+Over the session model `Dnp3.Model.Outstation`, for ALL states and inputs, with the database opaque
+(the `Db` operations are irreducible in the proofs: `Dnp3.Proofs.OutstationC03A`, `…C03B`).
+Definitions (`Dnp3.Proofs.OutstationC03`): `NoRelease db0 db` — `db` arises from `db0` by `select`,
+`writeResponse`, `writeUnsolicited`, `reset` only; `ConfirmPoint pf a` — the fragment `pf` of the step
+is a CONFIRM and either a solicited series awaits exactly its sequence number (`a.1.mode = .solWait sr …`,
+`UNS` clear, `seq = sr.ecsn`) or a DATA unsolicited series does (`.unsolWait resp false …`, `UNS` set,
+`seq = resp.ctrl.seq`); `DbEffect pf a a'` — either `NoRelease a.1.db a'.1.db` and no confirm callback is
+appended, or `ConfirmPoint pf a ∧ a'.1.db = a.1.db.clearWritten.1 ∧ .cb .beginConfirm ∈ a'.2`;
+`CleanContract Clean` — `reset`, `clearWritten`, `Db.new` establish `Clean`; `select`, `update`, `add`, a
+response that carried no event and an unsolicited attempt that found nothing preserve it;
+`OutsideSeries m` — `m` is `.idle _` or the confirm wait of a NULL unsolicited response;
+`SessClean Clean s := OutsideSeries s.mode → Clean s.db`. -/
+namespace Session
+open Dnp3 Dnp3.Proofs.C03 Dnp3.Proofs.Skel Dnp3.Proofs.Frame
+
+/-- (a) **`clearWritten` is applied only at the two confirm points.**  Every step that runs the session
+    machinery is a chain of primitive events (`Skel.Ev`), each of which either releases nothing — the
+    database changes by `select` / `writeResponse` / `writeUnsolicited` / `reset` only, and no
+    `begin_confirm` / `event_cleared` / `end_confirm` callback is emitted — or happens at a confirm point
+    (solicited CONFIRM with the expected sequence number while a solicited series awaits it; unsolicited
+    CONFIRM with the sequence number of the DATA series that awaits it) and applies exactly `clearWritten` -/
+theorem clear_only_on_confirm (env : OEnv) (s : OState) (inp : OInput) :
+    (∃ f, inp = .setScript f ∧ Outstation.step env s inp = ({ s with script := f s.script }, [])) ∨
+    Outstation.step env s inp = (s, []) ∨
+    ∃ pf s0 o0, StepInit env s inp pf s0 o0 ∧ Star (EvDb pf) (s0, o0) (Outstation.step env s inp) :=
+  Dnp3.Proofs.C03.clear_only_on_confirm env s inp
+
+/-- the database effect of every primitive event (what `EvDb` adds to `Ev`) -/
+theorem event_db_effect {pf : Option Frag} {a a' : Acc} (h : Ev pf a a') : DbEffect pf a a' :=
+  Dnp3.Proofs.C03.Ev.dbEffect h
+
+/-- (a), step-level corollary: a step whose fragment is not a CONFIRM (function code 0) releases no event —
+    the database after the step arises from the database after the step's prologue (`StepInit`: the
+    transaction / added point applied; `reset` for a disconnect) by non-releasing operations — and emits
+    no confirm callback -/
+theorem no_confirm_no_release (env : OEnv) (s : OState) (inp : OInput) :
+    (∃ f, inp = .setScript f ∧ Outstation.step env s inp = ({ s with script := f s.script }, [])) ∨
+    Outstation.step env s inp = (s, []) ∨
+    ∃ pf s0 o0, StepInit env s inp pf s0 o0 ∧
+      ((∀ f ctrl objs raw, ¬ ReqOf pf f ctrl 0 objs raw) →
+        NoRelease s0.db (Outstation.step env s inp).1.db ∧
+        ∀ o ∈ (Outstation.step env s inp).2, OOut.kind o ≠ .confirm) :=
+  Dnp3.Proofs.C03.no_confirm_no_release env s inp
+
+/-- (b) the exact sites where a series that ends WITHOUT its confirm resets the database, before anything
+    else runs: solicited — `Confirm::Timeout` and `Confirm::NewRequest` are `abortSeries`; … -/
+theorem abortSeries_resets (a : Acc) (cont : SolCont) :
+    abortSeries a cont = resumeAfterSol ({ a.1 with db := a.1.db.reset }, a.2) cont :=
+  Dnp3.Proofs.C03.abortSeries_resets a cont
+
+theorem solWaitTimeout_aborts (a : Acc) (series : Series) (cont : SolCont) :
+    solWaitTimeout a series cont = abortSeries (emitCb a (.solTimeout series.ecsn)) cont :=
+  Dnp3.Proofs.C03.solWaitTimeout_aborts a series cont
+
+/-- … unsolicited DATA series — retries exhausted, ended by DISABLE_UNSOLICITED, or cut short by a deferred
+    READ: all three are `afterUnsolSeries _ false false` (D4 repaired) … -/
+theorem unsol_series_end_resets (a : Acc) : (afterUnsolSeries a false false).1.1.db = a.1.db.reset :=
+  Dnp3.Proofs.C03.unsol_series_end_resets a
+
+/-- … and a disconnect, in whatever mode (D19 repaired): the state the next session starts from -/
+theorem cut_resets (s : OState) : (cutState s).db = s.db.reset :=
+  Dnp3.Proofs.C03.cut_resets s
+
+/-- (b) **outside a response series the database is clean** — the invariant, one step from ANY state
+    satisfying it, for ANY input: for every `Clean` meeting the contract, if `Clean s.db` whenever `s` is
+    outside a series (idle, or waiting for the confirm of a NULL unsolicited response), the same holds after
+    the step.  Since only `reset` and `clearWritten` ESTABLISH `Clean`, every way a series ends — confirmed
+    (`clearWritten`), or without its confirm: solicited timeout / new request, unsolicited retries exhausted /
+    DISABLE_UNSOLICITED / deferred READ, disconnect (`reset`) — has applied one of the two before the
+    session is outside a series again, i.e. before the next response is written from the database -/
+theorem step_sessClean {Clean : Db → Prop} (K : CleanContract Clean) (env : OEnv) (s : OState) (inp : OInput)
+    (h : SessClean Clean s) : SessClean Clean (Outstation.step env s inp).1 :=
+  Dnp3.Proofs.C03.step_sessClean K env s inp h
+
+/-- … over all histories from construction -/
+theorem reachable_sessClean {Clean : Db → Prop} (K : CleanContract Clean) {cfg : OCfg} {evMax : Nat} {env : OEnv}
+    {s : OState} (hr : Outstation.Reachable cfg evMax env s) : SessClean Clean s :=
+  Dnp3.Proofs.C03.reachable_sessClean K hr
+
+/-- the three places where a response is written from the database OUTSIDE a series — a request handled
+    from idle, the unsolicited check, the deferred READ — are reached with a clean database whenever the
+    pass is (`runPass_post` … in `Dnp3.Proofs.OutstationC03B`), and leave it clean unless they open a series -/
+theorem idle_request_clean {Clean : Db → Prop} (K : CleanContract Clean) {a a' : Acc} {f : Frag} {ctrl : AppCtrl}
+    {func : Nat} {objs : Except Nat (List ObjHdr)} {raw : List Nat} (hc : Clean a.1.db)
+    (hh : handleRequestFromIdle a f ctrl func objs raw = some (a', none)) : Clean a'.1.db :=
+  Dnp3.Proofs.C03.idle_request_clean K hc hh
+
+theorem checkUnsolicited_clean {Clean : Db → Prop} (K : CleanContract Clean) {a a' : Acc} {n : NextIdle}
+    (hc : Clean a.1.db) (hh : checkUnsolicited a = some (.inr (a', n))) : Clean a'.1.db :=
+  Dnp3.Proofs.C03.checkUnsolicited_clean K hc hh
+
+theorem handleDeferredRead_clean {Clean : Db → Prop} (K : CleanContract Clean) {a a' : Acc} {n : NextIdle}
+    (hc : Clean a.1.db) (hh : handleDeferredRead a n = some (.inr a')) : Clean a'.1.db :=
+  Dnp3.Proofs.C03.handleDeferredRead_clean K hc hh
+
+/-- the contract holds of the real database model with `Clean` = "no event record is `Written`" … -/
+theorem noWritten_contract : CleanContract NoWritten := Dnp3.Proofs.C03.noWritten_contract
+
+/-- … hence, closed over the whole model (session + database): in every reachable state outside a
+    response series no event record is `Written` — nothing an unconfirmed response carried can be
+    released by a later confirm (D4, D19), and the class bits count every buffered event -/
+theorem reachable_no_written {cfg : OCfg} {evMax : Nat} {env : OEnv} {s : OState}
+    (hr : Outstation.Reachable cfg evMax env s) (ho : OutsideSeries s.mode) : NoWritten s.db :=
+  Dnp3.Proofs.C03.reachable_no_written hr ho
+
+end Session
 
 end Dnp3.Props.C03
